@@ -68,7 +68,20 @@ def expected_callee(cname):
 
 
 def body(chk):
-    w = chk.world(units=['cmasa'])
+    try:
+        w = chk.world(units=['cmasa'])
+    except RuntimeError as e:
+        # clang refuses a wrapper whose definition conflicts with its prototype in masa.h (g++ only warns when the definition sits in a
+        # namespace): a C caller, who sees the prototype, cannot be calling the function that is defined
+        conflicts = sorted(set(re.findall(r"conflicting types for \W{1,3}(\w+)", str(e))))
+        if not conflicts:
+            raise
+        for n in conflicts:
+            chk.paths_clean('%s:definition-agrees-with-the-prototype-C-callers-see' % n, [tm.TRUE], key='%s:callee' % n, family='callee',
+                            sample=dict(obligation='prototype vs definition of %s' % n, diagnostic=str(e)[-600:]))
+        chk.notes.append('cmasa.cpp does not compile with clang (conflicting types for %r): the remaining wrappers were not analysed in this run' % conflicts)
+        chk.solve_all()
+        return
     wc = chk.world()              # full program: used to run the real C++ templates where a wrapper returns a constant
     nmax = 4 if chk.tier == 'quick' else 8
     chk.assumptions += ['MASA::masa_*<double> templates are uninterpreted in the wrapper analysis (arguments and abstract library state); their own behaviour is C10-C16',
